@@ -220,7 +220,9 @@ func calculateDiscountSum(discounts []*Discount, cur currency.Code) *num.Amount 
 func (m *Discount) round(cur currency.Code) {
 	// Default round to currency, or use base if present
 	e := cur.Def().Zero().Exp()
-	if m.Base != nil {
+	if m.Base != nil && m.Base.Exp() > e {
+		// never fewer decimals than the currency: the totals are
+		// calculated with the currency's precision at least
 		e = m.Base.Exp()
 	}
 	m.Amount = m.Amount.RescaleDown(e)
